@@ -85,7 +85,9 @@ class Convert(Harness):
             for c in cols.values():
                 if kind_of(c) == "f":
                     for x in c.cells: ctx.assume(z3.Not(z3.fpIsInf(x)), note="JSON leg: finite floats or NaN (JSON has no Infinity)")
-        return {"data": Frame(cols), "leg": self.leg}
+        inp = {"data": Frame(cols), "leg": self.leg}
+        if self.leg == "json" and choice("back_dtypes", [False, True]): inp["back_dtypes"] = True
+        return inp
     def probes(self, inp):
         # str() of a date / datetime is an uninterpreted lossless text in the model: observe the real text where precision matters
         pr = []
